@@ -30,6 +30,12 @@ for f in ("/tmp/confirm_all.out", "/tmp/confirm_all2.out", "/tmp/confirm_all3.ou
             m = re.match(r"CONFIRM (C\d+): demo with change exit=(\d+), without exit=(\d+)", l)
             if m:
                 conf[m.group(1)] = (int(m.group(2)), int(m.group(3)))
+import glob as _g
+for f in _g.glob("/tmp/seed_C*/confirm_demo.txt"):
+    for l in open(f):
+        m = re.match(r"CONFIRM (C\d+): demo with change exit=(\d+), without exit=(\d+)", l)
+        if m:
+            conf.setdefault(m.group(1), (int(m.group(2)), int(m.group(3))))
 tries = {}
 for f in ("/tmp/try_all.out", "/tmp/try_all2.out", "/tmp/try_all3.out", "/tmp/try_all4.out"):
     if os.path.exists(f):
